@@ -1,9 +1,114 @@
 /-
-  Helper lemmas for C17 (bitmask containers).  Property theorems are in Pk/Props/C17.lean.
+  Helper lemmas for C17 (bitmask containers): word-level facts shared by Long and Short.
+  Property theorems are in Pk/Props/C17.lean.
 -/
 import Pk.Model.Bits
 
+set_option linter.unusedSimpArgs false
+
 namespace Pk.Proofs.Bits
 open Pk.Bits
+
+theorem getLsbD_bitW (b i : Nat) (hb : b < 64) : (Long.bitW b).getLsbD i = decide (i = b) := by
+  simp [Long.bitW, BitVec.getLsbD_shiftLeft]
+  by_cases h : i = b
+  · subst h; simp; omega
+  · simp [h]; omega
+
+
+theorem getLsbD_low (bit i : Nat) (hb : bit < 64) :
+    ((1#64 <<< bit) - 1#64).getLsbD i = decide (i < bit) := by
+  have : (1#64 <<< bit) - 1#64 = BitVec.ofNat 64 (2^bit - 1) := by
+    apply BitVec.eq_of_toNat_eq
+    have h2 : 2^bit < 2^64 := Nat.pow_lt_pow_right (by omega) hb
+    have h3 : 0 < 2^bit := Nat.two_pow_pos _
+    simp [BitVec.toNat_sub, BitVec.shiftLeft_eq, Nat.shiftLeft_eq, Nat.mod_eq_of_lt h2]
+    omega
+  rw [this]
+  simp [BitVec.getLsbD_ofNat, Nat.testBit_two_pow_sub_one]
+  omega
+
+theorem injectWord_getLsbD (m : W) (bit : Nat) (v : Bool) (i : Nat) (hb : bit < 64) (hi : i < 64) :
+    (Long.injectWord m bit v).getLsbD i =
+      if i < bit then m.getLsbD i else if i = bit then v else m.getLsbD (i - 1) := by
+  unfold Long.injectWord
+  simp only []
+  cases v <;>
+  simp only [BitVec.getLsbD_or, BitVec.getLsbD_and, BitVec.getLsbD_not, BitVec.getLsbD_shiftLeft, getLsbD_low _ _ hb, if_true, if_false, Bool.false_eq_true, BitVec.getLsbD_one] <;>
+  by_cases h1 : i < bit <;> by_cases h2 : i = bit <;> simp [h1, h2, hi] <;> (try omega)
+  all_goals
+    have e1 : decide (i = 0) = false := by simp; omega
+    have e2 : decide (i - 1 < 64) = true := by simp; omega
+    have e3 : decide (i - 1 < bit) = false := by simp; omega
+    have e4 : decide (i - bit = 0) = false := by simp; omega
+    simp [e1, e2, e3, e4]
+
+theorem extractWord_getLsbD (m : W) (bit : Nat) (i : Nat) (hb : bit < 64) (hi : i < 64) :
+    (Short.extractWord m bit).getLsbD i =
+      if i < bit then m.getLsbD i else m.getLsbD (i + 1) := by
+  unfold Short.extractWord
+  simp only [BitVec.getLsbD_or, BitVec.getLsbD_and, BitVec.getLsbD_not, BitVec.getLsbD_ushiftRight, getLsbD_low _ _ hb]
+  by_cases h1 : i < bit <;> simp [h1, hi]
+  rw [Nat.add_comm]
+
+theorem len64_zero : Long.len64 0#64 = 0 := by simp [Long.len64, Nat.log2_zero]
+
+theorem toNat_ne_zero {w : W} (h : w ≠ 0#64) : w.toNat ≠ 0 := by
+  intro h'; apply h; apply BitVec.eq_of_toNat_eq; simpa using h'
+
+theorem len64_of_ne {w : W} (h : w ≠ 0#64) : Long.len64 w = Nat.log2 w.toNat + 1 := by
+  simp [Long.len64, h]
+
+theorem len64_eq_zero (w : W) : Long.len64 w = 0 ↔ w = 0#64 := by
+  constructor
+  · intro h; by_cases hw : w = 0#64
+    · exact hw
+    · rw [len64_of_ne hw] at h; omega
+  · intro h; subst h; exact len64_zero
+
+theorem len64_le (w : W) : Long.len64 w ≤ 64 := by
+  by_cases hw : w = 0#64
+  · subst hw; simp [len64_zero]
+  · rw [len64_of_ne hw]
+    have := (Nat.log2_lt (toNat_ne_zero hw)).2 w.isLt
+    omega
+
+theorem getLsbD_of_len64_le (w : W) (i : Nat) (h : Long.len64 w ≤ i) : w.getLsbD i = false := by
+  by_cases hw : w = 0#64
+  · subst hw; simp
+  · rw [len64_of_ne hw] at h
+    rw [BitVec.getLsbD, Nat.testBit_lt_two_pow]
+    exact Nat.lt_of_lt_of_le (Nat.lt_log2_self) (Nat.pow_le_pow_right (by omega) h)
+
+theorem getLsbD_len64_pred {w : W} (hw : w ≠ 0#64) : w.getLsbD (Long.len64 w - 1) = true := by
+  rw [len64_of_ne hw, BitVec.getLsbD]; simpa using Nat.testBit_log2 (toNat_ne_zero hw)
+
+theorem countP_range_add (p : Nat → Bool) (a b : Nat) :
+    (List.range (a + b)).countP p = (List.range a).countP p + (List.range b).countP (fun i => p (a + i)) := by
+  rw [List.range_add, List.countP_append, List.countP_map]; rfl
+
+theorem word_eq_zero_iff (w : W) : w = 0#64 ↔ ∀ i, i < 64 → w.getLsbD i = false := by
+  constructor
+  · intro h; subst h; simp
+  · intro h; apply BitVec.eq_of_getLsbD_eq; intro i hi; simp [h i hi]
+
+theorem word_ext {a b : W} (h : ∀ i, i < 64 → a.getLsbD i = b.getLsbD i) : a = b :=
+  BitVec.eq_of_getLsbD_eq h
+
+/-- setting the bits `lo, lo+1, …, lo+n-1` one after the other yields the interval (used for the
+    `mk` operation of the word-based kinds in `Pk.Props.C17.longRange` / `shortRange`). -/
+theorem foldl_set_range {α : Type} (set : α → Nat → α) (isSet : α → Nat → Bool)
+    (hset : ∀ s b x, isSet (set s b) x = (x == b || isSet s x)) (init : α) (lo n x : Nat) :
+    isSet ((List.range n).foldl (fun s i => set s (lo + i)) init) x
+      = (decide (lo ≤ x) && decide (x < lo + n) || isSet init x) := by
+  induction n with
+  | zero => simp; intro h; omega
+  | succ n ih =>
+    rw [List.range_succ, List.foldl_append]
+    simp only [List.foldl_cons, List.foldl_nil, hset, ih]
+    by_cases h1 : x = lo + n
+    · subst h1; simp
+    · have e : decide (x < lo + (n + 1)) = decide (x < lo + n) := decide_eq_decide.mpr (by omega)
+      rw [e]; simp [h1]
 
 end Pk.Proofs.Bits
